@@ -17,14 +17,18 @@ pub fn drive(seed: u64, outdir: &str, thorough: bool) {
   let scratch = format!("/var/tmp/agv-c17-{}", std::process::id());
   let n_trees = if thorough { 12 } else { 3 };
   let mut jobs = vec![];
+  // the last trees are big: hundreds of files, so that the walker threads get far ahead of the printing thread
+  let n_big = if thorough { 3 } else { 1 };
+  let n_trees = n_trees + n_big;
   for tree in 0..n_trees {
+    let big = tree >= n_trees - n_big;
     // a tree: 6-14 files in nested directories; k matches per file; some faulty
-    let n_files = 6 + rng.below(9);
+    let n_files = if big { 320 + rng.below(120) } else { 6 + rng.below(9) };
     let mut files: Vec<(String, Vec<u8>, &'static str)> = vec![];
     for i in 0..n_files {
-      let dir = ["", "a/", "a/b/", "c/"][rng.below(4)];
+      let dir = if big { format!("d{}/", i % 17) } else { ["", "a/", "a/b/", "c/"][rng.below(4)].to_string() };
       let path = format!("{dir}f{i}.js");
-      let fault = match rng.below(9) { 0 => "empty", 1 => "non-utf8", 2 if thorough => "oversized", _ => "ok" };
+      let fault = match rng.below(if big { 40 } else { 9 }) { 0 => "empty", 1 => "non-utf8", 2 if thorough && !big => "oversized", _ => "ok" };
       let content: Vec<u8> = match fault {
         "empty" => vec![],
         "non-utf8" => b"foo(1); \xff\xfe foo(2);\n".to_vec(),
@@ -35,7 +39,7 @@ pub fn drive(seed: u64, outdir: &str, thorough: bool) {
           s.into_bytes()
         }
         _ => {
-          let k = rng.below(4);
+          let k = if big { 1 + rng.below(2) } else { rng.below(4) };
           let mut s = String::from("// file\n");
           for j in 0..k { s.push_str(&format!("foo({j}); bar(\"é\");\n")); }
           s.into_bytes()
@@ -43,11 +47,12 @@ pub fn drive(seed: u64, outdir: &str, thorough: bool) {
       };
       files.push((path, content, fault));
     }
-    let threads: Vec<usize> = if thorough { vec![1, 2, 3, 4, 8, 16] } else { vec![1, 2, 4, 16] };
-    let reps = if thorough { 4 } else { 2 };
+    let threads: Vec<usize> = if big { (if thorough { vec![2, 8, 16] } else { vec![8] }) } else if thorough { vec![1, 2, 3, 4, 8, 16] } else { vec![1, 2, 4, 16] };
+    let reps = if big { 1 } else if thorough { 4 } else { 2 };
     for &j in &threads {
       for rep in 0..reps {
-        jobs.push((tree, files.clone(), j, rep, rng.next() % 100000));
+        // big trees are printed into a pipe nobody reads for a while
+        jobs.push((tree, files.clone(), j, rep, rng.next() % 100000, big));
       }
     }
   }
@@ -69,7 +74,7 @@ pub fn drive(seed: u64, outdir: &str, thorough: bool) {
     expected.insert(tree, (all, faulty));
     p.remove();
   }
-  let results = cli::par_map(&jobs, 4, |idx, (tree, files, j, rep, sched)| {
+  let results = cli::par_map(&jobs, 4, |idx, (tree, files, j, rep, sched, slow)| {
     let p = Project::new(&format!("{scratch}/run{idx}"));
     for (path, content, _) in files {
       p.write(path, content);
@@ -78,8 +83,9 @@ pub fn drive(seed: u64, outdir: &str, thorough: bool) {
     let _ = std::fs::remove_file(&trace);
     let jn = j.to_string();
     let sched_s = sched.to_string();
-    let o = run_sgv(&["run", "-p", "foo($A)", "-l", "js", "--json=stream", "--inspect", "summary", "-j", &jn, "."], &p.root, None, 120,
-      &[("AST_GREP_VERIF_TRACE", trace.as_str()), ("AST_GREP_VERIF_SCHED", sched_s.as_str())]);
+    let args = ["run", "-p", "foo($A)", "-l", "js", "--json=stream", "--inspect", "summary", "-j", &jn, "."];
+    let env = [("AST_GREP_VERIF_TRACE", trace.as_str()), ("AST_GREP_VERIF_SCHED", sched_s.as_str())];
+    let o = if *slow { cli::run_sgv_slow_reader(&args, &p.root, 120, &env, 1200) } else { run_sgv(&args, &p.root, None, 120, &env) };
     p.remove();
     let events = if std::path::Path::new(&trace).exists() { util::read_ndjson(&trace) } else { vec![] };
     let _ = std::fs::remove_file(&trace);
@@ -114,7 +120,7 @@ pub fn drive(seed: u64, outdir: &str, thorough: bool) {
       }
     }
     let (exp, faulty) = &expected[tree];
-    let config = json!({"ev": "config", "id": format!("tree{tree}-j{j}-r{rep}"), "threads_flag": j, "sched": sched,
+    let config = json!({"ev": "config", "id": format!("tree{tree}-j{j}-r{rep}{}", if *slow { "-slowreader" } else { "" }), "threads_flag": j, "sched": sched,
       "files": outcome.keys().collect::<Vec<_>>(), "outcome": outcome.values().collect::<Vec<_>>(), "tids": tids,
       "all_files": files.iter().map(|f| f.0.clone()).collect::<Vec<_>>(), "n_files": files.len(), "faulty": faulty,
       "expected": exp, "printed": printed, "parsed": parsed, "scanned": scanned, "skipped": skipped, "exit": o.code,
